@@ -11,6 +11,11 @@ mod suite_rt;
 mod idmap_hist;
 mod idmap_oracle;
 mod suite_idmap;
+mod ser_gen;
+mod ser_oracle;
+mod ser_ws;
+mod suite_entity;
+mod suite_ser;
 mod suite_tree;
 mod tree;
 
@@ -37,6 +42,7 @@ fn main() {
         "exec-forest" => suite_forest::exec_stdin(&mut sink),
         "idmap" => suite_idmap::run(seed, count, tier, &mut sink),
         "axes" => suite_axes::run(seed, count, tier, &mut sink),
+        "ser" => suite_ser::run(seed, count, tier, &mut sink),
         _ => {
             eprintln!("unknown suite {}", suite);
             std::process::exit(2);
